@@ -1,17 +1,20 @@
 // Monitor for C20: configured limits are enforced and recover.
-//   capacity: add/remove histories around MaxFacts; size <= max after every
-//             acknowledged add, a refused add leaves state and storage unchanged;
-//   breaker:  timestamped admission log checked offline: sliding-window rate
-//             bound and recovery, both judged on [before, after] intervals;
-//   throttle: each submitted function runs at most once, Pending() <= limit+1,
-//             pending returns to 0.
+//
+//	capacity: add/remove histories around MaxFacts; size <= max after every
+//	          acknowledged add, a refused add leaves state and storage unchanged;
+//	breaker:  timestamped admission log checked offline: sliding-window rate
+//	          bound and recovery, both judged on [before, after] intervals;
+//	throttle: each submitted function runs at most once, Pending() <= limit+1,
+//	          pending returns to 0.
 package main
 
 import (
 	"fmt"
 	"math/rand"
 	"os"
+	"runtime"
 	"sort"
+	"strconv"
 	"strings"
 	"sync"
 	"sync/atomic"
@@ -141,14 +144,28 @@ func capacityConcurrent(r *rep.Report, rng *rand.Rand, n int) {
 		var wg sync.WaitGroup
 		var acks int64
 		gate := make(chan struct{})
-		adders := 8
+		adders := 8 + rng.Intn(8)
+		// half of the rounds start one below the maximum, so that all adders meet at the boundary
+		if h%2 == 1 {
+			for i := 0; i < max-1; i++ {
+				loc.AddFact(drv.Ctx(), fmt.Sprintf("pre%d", i), core.Map{"v": "pre"})
+			}
+		}
+		mode := h % 3 // 0: facts only, 1: rules only, 2: mixed
 		for c := 0; c < adders; c++ {
 			wg.Add(1)
 			go func(c int) {
 				defer wg.Done()
 				<-gate
 				for i := 0; i < 3; i++ {
-					if _, err := loc.AddFact(drv.Ctx(), fmt.Sprintf("k%d-%d", c, i), core.Map{"v": float64(i)}); err == nil {
+					var err error
+					if mode == 1 || (mode == 2 && c%2 == 0) {
+						_, err = loc.AddRule(drv.Ctx(), fmt.Sprintf("r%d-%d", c, i), core.Map{"when": map[string]interface{}{"pattern": map[string]interface{}{"e": fmt.Sprint(c)}},
+							"condition": map[string]interface{}{"pattern": map[string]interface{}{"v": "?v"}}, "action": map[string]interface{}{"code": "1"}})
+					} else {
+						_, err = loc.AddFact(drv.Ctx(), fmt.Sprintf("k%d-%d", c, i), core.Map{"v": float64(i)})
+					}
+					if err == nil {
 						atomic.AddInt64(&acks, 1)
 					}
 				}
@@ -161,7 +178,7 @@ func capacityConcurrent(r *rep.Report, rng *rand.Rand, n int) {
 		r.Count("capacity_concurrent_rounds", 1)
 		if size > max {
 			r.Violate("", "concurrent adders pushed the location beyond its maximum (capacity check and add are not one step)",
-				rep.J{"kind": "capacity-concurrent", "state": kind, "max": max, "size": size, "acknowledged_adds": acks})
+				rep.J{"kind": "capacity-concurrent", "state": kind, "max": max, "size": size, "acknowledged_adds": acks, "adders": adders, "mode": []string{"facts", "rules", "facts and rules"}[mode]})
 		}
 	}
 }
@@ -331,6 +348,67 @@ func checkBreaker(r *rep.Report, log []bcall, limit int64, interval time.Duratio
 }
 
 // ---------- throttle ----------
+
+// probe wraps the throttle's breaker: every attempt of a submission passes
+// through Do on the submitter's own goroutine, strictly between the moment the
+// submission was counted as pending and the moment it stopped being counted.
+// So a submission is certainly waiting from its first to its last attempt.
+type probe struct {
+	core.Breaker
+	mu          sync.Mutex
+	first, last map[int64]time.Time
+}
+
+func gid() int64 {
+	var buf [64]byte
+	n := runtime.Stack(buf[:], false)
+	f := strings.Fields(string(buf[:n]))
+	if len(f) < 2 {
+		return -1
+	}
+	id, _ := strconv.ParseInt(f[1], 10, 64)
+	return id
+}
+
+func (p *probe) Do(f func() error) (bool, error) {
+	id, now := gid(), time.Now()
+	p.mu.Lock()
+	if _, ok := p.first[id]; !ok {
+		p.first[id] = now
+	}
+	p.last[id] = now
+	p.mu.Unlock()
+	return p.Breaker.Do(f)
+}
+
+// maxWaiting: the largest number of submissions that were certainly waiting at one instant.
+func (p *probe) maxWaiting() int {
+	type pt struct {
+		t time.Time
+		d int
+	}
+	var pts []pt
+	p.mu.Lock()
+	for id, f := range p.first {
+		pts = append(pts, pt{f, +1}, pt{p.last[id], -1})
+	}
+	p.mu.Unlock()
+	sort.SliceStable(pts, func(i, j int) bool {
+		if pts[i].t.Equal(pts[j].t) {
+			return pts[i].d > pts[j].d
+		}
+		return pts[i].t.Before(pts[j].t)
+	})
+	cur, max := 0, 0
+	for _, x := range pts {
+		cur += x.d
+		if cur > max {
+			max = cur
+		}
+	}
+	return max
+}
+
 func throttle(r *rep.Report, rng *rand.Rand, n int) {
 	for run := 0; run < n; run++ {
 		limit := int64(1 + rng.Intn(5))
@@ -339,7 +417,8 @@ func throttle(r *rep.Report, rng *rand.Rand, n int) {
 		attempts := 2 + rng.Intn(6)
 		pause := time.Duration(1+rng.Intn(10)) * time.Millisecond
 		submitters := 8 + rng.Intn(56)
-		b, _ := core.NewOutboundBreaker(limit, interval)
+		ob, _ := core.NewOutboundBreaker(limit, interval)
+		b := &probe{Breaker: ob, first: map[int64]time.Time{}, last: map[int64]time.Time{}}
 		t, _ := core.NewThrottle(attempts, pendingLimit, pause, b)
 		r.Journal(rep.J{"throttle": run, "limit": limit, "pendingLimit": pendingLimit, "submitters": submitters})
 		runs := make([]int64, submitters)
@@ -408,6 +487,13 @@ func throttle(r *rep.Report, rng *rand.Rand, n int) {
 		if pend != 0 {
 			r.Violate("", fmt.Sprintf("after all submissions returned Pending() is %d", pend), wit)
 		}
+		// independent of the throttle's own counter: submissions seen waiting (between their first and last attempt) at one instant
+		waiting := b.maxWaiting()
+		wit["max_waiting_observed"] = waiting
+		r.Count("throttle_max_waiting_observed_total", waiting)
+		if waiting > pendingLimit+1 {
+			r.Violate("", fmt.Sprintf("%d submissions were waiting at the same instant, the pending limit is %d (+1)", waiting, pendingLimit), wit)
+		}
 		r.Count("throttle_submissions", submitters)
 	}
 }
@@ -419,7 +505,7 @@ func main() {
 	switch e.Stage {
 	case "capacity":
 		capacity(r, rng, e.Pick(400, 3000))
-		capacityConcurrent(r, rng, e.Pick(40, 200))
+		capacityConcurrent(r, rng, e.Pick(240, 1500))
 	case "breaker":
 		breaker(r, rng, e.Pick(6, 30))
 	case "throttle":
